@@ -1005,11 +1005,13 @@ class ModelReference(Reference, Generic[_RT]):
             if not k.type.is_fragment_key_element:
                 raise AASConstraintViolation(125, "The type of all keys following the first of a ModelReference "
                                                   f"must be one of FragmentKeyElements: {k!r}")
-        if not key[-1].type.is_generic_fragment_key:
-            for k in key[:-1]:
-                if k.type.is_generic_fragment_key:
+        for k in key[:-1]:
+            if k.type.is_generic_fragment_key:
+                if key[-1].type.is_generic_fragment_key:
                     raise AASConstraintViolation(126, f"Key {k!r} is a GenericFragmentKey, "
-                                                      f"but the last key of the chain is not: {key[-1]!r}")
+                                                      f"but it is not the last key of the chain")
+                raise AASConstraintViolation(126, f"Key {k!r} is a GenericFragmentKey, "
+                                                  f"but the last key of the chain is not: {key[-1]!r}")
         for pk, k in zip(key, key[1:]):
             if k.type == KeyTypes.FRAGMENT_REFERENCE and pk.type not in (KeyTypes.BLOB, KeyTypes.FILE):
                 raise AASConstraintViolation(127, f"{k!r} is not preceded by a key of type File or Blob, but {pk!r}")
